@@ -584,8 +584,10 @@ string StripAnsiEscapeCodes(const string& in) {
     if (in[i + 1] != '[') continue;  // Not a CSI.
     i += 2;
 
-    // Skip everything up to and including the next [a-zA-Z].
-    while (i < in.size() && !islatinalpha(in[i]))
+    // Skip everything up to and including the final byte of the control
+    // sequence.  That is any byte in 0x40-0x7E (ECMA-48), mostly a letter but
+    // also e.g. '~': stopping only at a letter swallowed the text that follows.
+    while (i < in.size() && !(in[i] >= 0x40 && in[i] <= 0x7E))
       ++i;
   }
   return stripped;
